@@ -45,3 +45,93 @@ def fpmodel_vs_bytesio(seed):
                 return {'ok': False, 'cases': cases, 'detail': 'outfp'}
             cases += 1
     return {'ok': True, 'cases': cases}
+
+
+def _repo_formats():
+    """every struct format string literal (or FMT class attribute) found in /repo/pycdlib by AST scan"""
+    import ast, glob, os, struct
+    fmts = set()
+    repo = os.environ.get('VF_REPO', '/repo')
+    for fn in glob.glob(os.path.join(repo, 'pycdlib', '*.py')) + glob.glob(os.path.join(repo, 'tools', 'pycdlib-*')):
+        try:
+            tree = ast.parse(open(fn).read())
+        except SyntaxError:
+            continue
+        for node in ast.walk(tree):
+            if isinstance(node, ast.Constant) and isinstance(node.value, str):
+                s = node.value
+                if 0 < len(s) < 80 and s[0] in '<>=!@' or (0 < len(s) < 80 and all(ch in '0123456789BbHhLlIiQqsx' for ch in s) and any(ch.isalpha() for ch in s)):
+                    try:
+                        struct.calcsize(s)
+                        fmts.add(s)
+                    except struct.error:
+                        pass
+    return sorted(fmts)
+
+
+def struct_model_vs_struct(seed):
+    """differential run of M_struct against CPython's struct on every format found in /repo"""
+    import random, struct, re
+    from vf.models import smodel
+    rnd = random.Random(seed)
+    cases = 0
+    fmts = _repo_formats()
+    supported = set('BbHhLlIiQqsx0123456789<>=!@')
+    skipped = []
+    for f in fmts:
+        if not set(f) <= supported:
+            skipped.append(f)
+            continue
+        if f[0] not in '<>=!' and struct.calcsize(f) != struct.calcsize('=' + f):
+            skipped.append(f + ' (native-size format; only in the Windows ioctl path of utils)')
+            continue
+        if smodel.calcsize(f) != struct.calcsize(f):
+            return {'ok': False, 'cases': cases, 'detail': 'calcsize %r' % f}
+        order, items = smodel._parse(f)
+        for _ in range(6):
+            vals = []
+            for c, sz in items:
+                if c == 'x':
+                    continue
+                if c == 's':
+                    n = rnd.choice([0, sz, max(0, sz - 1), sz + 2])
+                    vals.append(bytes(rnd.randrange(256) for _ in range(n)))
+                else:
+                    lo, hi = (-(1 << (8 * sz - 1)), (1 << (8 * sz - 1)) - 1) if c.islower() else (0, (1 << (8 * sz)) - 1)
+                    vals.append(rnd.choice([lo, hi, 0, 1, rnd.randrange(lo, hi + 1), rnd.randrange(lo, hi + 1)]))
+            a = struct.pack(f, *vals)
+            b = smodel.pack(f, *vals)
+            if a != b:
+                return {'ok': False, 'cases': cases, 'detail': 'pack %r %r' % (f, vals)}
+            buf = bytes(rnd.randrange(256) for _ in range(len(a)))
+            if struct.unpack(f, buf) != smodel.unpack(f, buf):
+                return {'ok': False, 'cases': cases, 'detail': 'unpack %r' % f}
+            pad = bytes(3) + buf + bytes(2)
+            if struct.unpack_from(f, pad, 3) != smodel.unpack_from(f, pad, 3):
+                return {'ok': False, 'cases': cases, 'detail': 'unpack_from %r' % f}
+            cases += 3
+        # range / short-buffer errors
+        for c, sz in items:
+            if c in 'sx':
+                continue
+        try:
+            smodel.unpack(f, bytes(max(0, struct.calcsize(f) - 1)))
+            if struct.calcsize(f) > 0:
+                return {'ok': False, 'cases': cases, 'detail': 'short buffer accepted %r' % f}
+        except smodel.error:
+            pass
+    for c, sz in (('B', 1), ('H', 2), ('L', 4), ('b', 1), ('h', 2), ('Q', 8)):
+        for v in (-1, 1 << (8 * sz), -(1 << (8 * sz - 1)) - 1):
+            r1 = r2 = None
+            try:
+                struct.pack('<' + c, v); r1 = True
+            except struct.error:
+                r1 = False
+            try:
+                smodel.pack('<' + c, v); r2 = True
+            except smodel.error:
+                r2 = False
+            if r1 != r2:
+                return {'ok': False, 'cases': cases, 'detail': 'range %s %d' % (c, v)}
+            cases += 1
+    return {'ok': True, 'cases': cases, 'formats': len(fmts), 'skipped_formats': skipped}
